@@ -251,6 +251,33 @@ func checkC12(c *Ctx) {
 	// 遍历 binds the element's own 1-based position
 	borrowRule(c, "C02", "C02.iter", "C12.iter")
 
+	// ---- C12.jsonlist (= C19.kinds list-length) and the empty-list constructor: a list built element by element starts
+	// empty (length 0; spare capacity is fine)
+	if f := u.ssaFunc("pkg/common", "buildPlainValueFromElement"); f != nil {
+		sized := appendOntoSized(u, f)
+		R.check(len(sized) == 0, "C12.jsonlist", "pkg/common.buildPlainValueFromElement", u.pos(f.Pos()), "generated JSON lists have the list's length and order", "the slice for a list is made with a non-zero length and then appended to ("+strings.Join(sized, ", ")+"): the generated JSON has neither the list's length nor its positions")
+	}
+	for _, name := range []string{"NewEmptyArray"} {
+		if f := u.ssaFunc("pkg/value", name); f != nil {
+			bad := ""
+			for _, in := range instrsOf(f) {
+				if mk, ok := in.(*ssa.MakeSlice); ok {
+					if k, isK := mk.Len.(*ssa.Const); !isK || k.Int64() != 0 {
+						bad = u.pos(mk.Pos())
+					}
+				}
+				if sl, ok := in.(*ssa.Slice); ok {
+					if al, isAl := sl.X.(*ssa.Alloc); isAl {
+						if arr, isArr := al.Type().(*types.Pointer).Elem().Underlying().(*types.Array); isArr && arr.Len() != 0 {
+							bad = u.pos(sl.Pos())
+						}
+					}
+				}
+			}
+			R.check(bad == "", "C12.emptylist", "pkg/value."+name, u.pos(f.Pos()), "an empty list has length 0", "the constructor of an empty list creates a slice of non-zero length ("+bad+"): every list built through it (解析JSON arrays) starts with nil elements - wrong length, and reading one crashes")
+		}
+	}
+
 	// ---- C12.contains: 包含 answers 真 exactly when 寻找 would find the element. When the answer is computed from the
 	// position 寻找 reports (0-based, -1 = not found), the test must accept every position >= 0 and reject -1
 	if f := u.ssaFunc("pkg/value", "arrayExecContains"); f != nil {
@@ -688,6 +715,35 @@ func checkC19(c *Ctx) {
 	}
 	// the dictionary handed to the generator is consistent: a removed key is gone from the map as well as from the order list
 	borrowRule(c, "C12", "C12.sync", "C19.sync")
+	borrowRule(c, "C12", "C12.emptylist", "C19.emptylist")
+	// ---- C19.glue: each library function is registered under its own name: RegisterFunction gets a constant name and a
+	// function built directly from a declared function (no closure that could capture a loop variable shared by all
+	// iterations - the module's go directive predates per-iteration loop variables)
+	nReg, okReg := 0, true
+	for _, rel := range []string{"stdlib/json", "stdlib/file"} {
+		for _, g := range u.srcFuncs(rel) {
+			for _, cs := range u.callsNamed(g, "pkg/runtime.Library.RegisterFunction") {
+				nReg++
+				args := cs.Common().Args
+				if _, isK := args[1].(*ssa.Const); !isK {
+					okReg = false
+					continue
+				}
+				direct := false
+				for _, src := range allSources(args[2]) {
+					if nf, isCall := src.(*ssa.Call); isCall && u.callName(nf) == "pkg/value.NewFunction" {
+						if _, isFn := nf.Call.Args[0].(*ssa.Function); isFn {
+							direct = true
+						}
+					}
+				}
+				if !direct {
+					okReg = false
+				}
+			}
+		}
+	}
+	R.check(okReg && nReg >= 2, "C19.glue", "stdlib:RegisterFunction", "", fmt.Sprintf("%d library functions are registered by constant name with a declared function", nReg), "a library function is registered through a computed name or a closure: with a closure created in a loop every exported name can end up calling the same (last) function - 解析JSON would run 生成JSON")
 
 	// ---- C19.verbatim: the generated text is exactly the bytes encoding/json produced (no textual post-processing:
 	// it cannot know the escaping context and turns valid JSON into invalid JSON)
@@ -854,6 +910,8 @@ func checkC19(c *Ctx) {
 				}
 			}
 		}
+		sized := appendOntoSized(u, f)
+		R.check(len(sized) == 0, "C19.kinds", "pkg/common.buildPlainValueFromElement:list-length", u.pos(f.Pos()), "the slice built for a list has exactly the list's elements", "the slice for a list is made with a non-zero length and then appended to ("+strings.Join(sized, ", ")+"): the generated JSON array starts with that many nulls - neither the list's length nor its positions")
 		R.check(nilList == "", "C19.kinds", "pkg/common.buildPlainValueFromElement:empty-list", u.pos(f.Pos()), "a list becomes a non-nil slice (an empty list is written as [])", "the slice built for a list can still be nil when the list is empty (return at "+nilList+"): encoding/json writes null, so 生成JSON turns an empty list into 空 and 解析JSON(生成JSON(d)) differs from d")
 		R.check(!conv, "C19.kinds", "pkg/common.buildPlainValueFromElement:numbers", u.pos(f.Pos()), "numbers are handed to encoding/json as float64 (non-finite values make Marshal fail -> exception)", "a number is converted to an integer before encoding (large or non-finite doubles are silently changed)")
 	} else {
